@@ -601,26 +601,55 @@ func (dsc *dataStoreCommand) bitfieldWrite(keyName string, ops []*bitfieldOp) (o
 		} else {
 			newValue := op.value
 			if op.op == BF_INCRBY {
-				newValue = n + newValue
+				newValue = n + newValue // wraps like the stored two's-complement value
 			}
 
-			// detect underflow and overflow
-			var outOfBounds bool
+			// detect underflow and overflow of the value the field is asked to hold: the
+			// sum for INCRBY, the given value for SET (comparisons arranged so that they
+			// cannot overflow themselves)
+			var over, under bool
+			var fieldMin, fieldMax int64
 			if op.signed {
-				outOfBounds = isSignedSumOverflow(n, op.value, bits)
+				if bits == 64 {
+					fieldMin, fieldMax = math.MinInt64, math.MaxInt64
+				} else {
+					fieldMax = int64(1)<<(bits-1) - 1
+					fieldMin = -fieldMax - 1
+				}
 			} else {
-				// unsigned underflows when it goes negative
-				outOfBounds = newValue < 0 || isUnsignedOverflow(newValue, bits)
+				// bits max is 63 for unsigned, per redis
+				fieldMin, fieldMax = 0, int64(1)<<bits-1
 			}
-			if outOfBounds {
+			if op.op == BF_INCRBY {
+				if op.value > 0 {
+					over = n > fieldMax-op.value
+				} else if op.value < 0 {
+					if op.signed {
+						under = n < fieldMin-op.value
+					} else {
+						under = op.value == math.MinInt64 || n < -op.value
+					}
+				}
+			} else {
+				over = op.value > fieldMax
+				under = op.value < fieldMin
+			}
+
+			if over || under {
 				switch op.oflow {
 				case OFLOW_WRAP:
-					newValue &= (1 << bits) - 1
+					if bits < 64 {
+						newValue &= (1 << bits) - 1
+					}
 					if op.signed {
 						newValue = signExtend(newValue, bits)
 					}
 				case OFLOW_SAT:
-					newValue = saturateValue(op.signed, newValue, bits)
+					if over {
+						newValue = fieldMax
+					} else {
+						newValue = fieldMin
+					}
 				case OFLOW_FAIL:
 					results = append(results, nil)
 					continue
